@@ -53,16 +53,19 @@ def _rel(e):
 
 
 def _is_readiness(ev):
-    t = ev.data.get("text", "")
+    t = _CTX[0].norm.xtext(ev.fi, ev.node) if _CTX else ev.data.get("text", "")
     return ev.kind == "branch" and ("is_operation_ready" in t or ("_job_next_operation_index" in t and "position_in_job" in t))
+
+
+_CTX: list = []
 
 
 def _is_eligibility(ev):
     n = ev.node
-    return (
-        ev.kind == "branch" and isinstance(n, ast.Compare) and len(n.ops) == 1
-        and isinstance(n.ops[0], (ast.NotIn, ast.In)) and "machines" in ast.unparse(n.comparators[0])
-    )
+    if not (ev.kind == "branch" and isinstance(n, ast.Compare) and len(n.ops) == 1 and isinstance(n.ops[0], (ast.NotIn, ast.In))):
+        return False
+    t = _CTX[0].norm.xtext(ev.fi, n.comparators[0]) if _CTX else ast.unparse(n.comparators[0])
+    return "machines" in t
 
 
 def _sched_cls(ctx):
@@ -75,6 +78,7 @@ def run(ctx):
     chk.rule("R01.b", "machine lists mutated only inside Schedule; Schedule.add called only from Dispatcher.dispatch; wholesale installs pass check_schedule")
     chk.rule("R01.c", "tracking vectors written only after Schedule.add returned")
     chk.rule("R01.d", "order relation previous.end_time <= new.start_time against the last operation of the same machine (add) / the predecessor (check_schedule)")
+    _CTX[:] = [ctx]
     disp = repo.find_class(DISPATCHER)
     sched = _sched_cls(ctx)
     sop = repo.find_class("ScheduledOperation")
@@ -269,8 +273,8 @@ def _eligibility_consistent(ev):
     constructor: the tested value must be what is stored as the machine id."""
     n = ev.node
     left = n.left
-    comp = n.comparators[0]
     fi = ev.frame.fi
+    comp = _CTX[0].norm.xexpr(fi, n.comparators[0]) if _CTX else n.comparators[0]
     if not (isinstance(comp, ast.Attribute) and comp.attr == "machines"):
         return False
     owner = ast.unparse(comp.value)
@@ -336,15 +340,18 @@ def _order_relation(ctx, sched, add):
         raise AnalysisError("Schedule._check_start_time_of_new_operation vanished (inline form not modelled)")
     p = chkfn.params[1]
     last = None
+    last_x = None
     for n in own_nodes(chkfn.node):
-        if isinstance(n, ast.Assign) and isinstance(n.value, ast.Subscript) and isinstance(n.value.value, ast.Subscript):
-            inner = n.value.value
-            if ast.unparse(inner.value) in ("self.schedule", "self._schedule"):
-                last = n
+        if isinstance(n, ast.Assign) and isinstance(n.targets[0], ast.Name):
+            x = ctx.norm.xexpr(chkfn, n.value)
+            if isinstance(x, ast.Subscript) and isinstance(x.value, ast.Subscript) and not isinstance(x.slice, ast.Slice):
+                inner = x.value
+                if ast.unparse(inner.value) in ("self.schedule", "self._schedule"):
+                    last, last_x = n, x
     if last is None:
         raise AnalysisError("Schedule._check_start_time_of_new_operation: predecessor lookup not recognised")
-    idx_m = ast.unparse(last.value.value.slice)
-    idx_l = ast.unparse(last.value.slice)
+    idx_m = ast.unparse(last_x.value.slice)
+    idx_l = ast.unparse(last_x.slice)
     if idx_m != f"{p}.machine_id":
         chk.violation("R01.d", chkfn, last, f"the predecessor is looked up on machine `{idx_m}`, not on the new operation's machine", loc=chkfn.loc(last))
     elif idx_l != "-1":
